@@ -1,5 +1,6 @@
 import Gpc.Model.Proto
 import Gpc.Model.Search
+import Gpc.Model.Str
 namespace Gpc.Driver
 open Gpc.Proto Gpc.Search
 
@@ -25,6 +26,14 @@ def srch (toks : List String) : String :=
     | _, _, _ => "bad-op"
   | ["fno", h, set, s] => match parseHex h, parseHex set, s.toNat? with
     | some h, some set, some s => if set.contains 0 ∨ s > h.length then "bad-op" else showIdx (findFirstNotOf h set s)
+    | _, _, _ => "bad-op"
+  | ["sfo", h, set, s] => match parseHex h, parseHex set, s.toNat? with
+    | some h, some set, some s => if set.contains 0 ∨ s > h.length then "bad-op" else
+        (match Gpc.Str.findFirstCp set true (h.length + 1) h s with | some i => toString i | none => "nf")
+    | _, _, _ => "bad-op"
+  | ["sfno", h, set, s] => match parseHex h, parseHex set, s.toNat? with
+    | some h, some set, some s => if set.contains 0 ∨ s > h.length then "bad-op" else
+        (match Gpc.Str.findFirstCp set false (h.length + 1) h s with | some i => toString i | none => "nf")
     | _, _, _ => "bad-op"
   | ["eq", a, b] => match parseHex a, parseHex b with
     | some a, some b => if equal a b then "1" else "0"
